@@ -187,6 +187,13 @@ struct crs {
     const crs& operator=(const crs &other) {
         free_data();
 
+        // A view of user memory lets go of the user's arrays (they are neither
+        // freed nor written) and owns the copy it is about to make.
+        if (!own_data) {
+            ptr = 0; col = 0; val = 0;
+            own_data = true;
+        }
+
         nrows = other.nrows;
         ncols = other.ncols;
         nnz   = other.nnz;
